@@ -40,7 +40,7 @@ def generate(ctx, n):
 
 
 def run(ctx):
-    n = 500 if ctx.quick else 6000
+    n = 2000 if ctx.quick else 12000
     corpus = corpus_for(PID)
     scns = [s for _, s in corpus] + generate(ctx, n)
     impls, models, mism, stats = cp.correspondence(ctx, scns, "Cases_C01")
